@@ -376,6 +376,7 @@ func checkC01(e *Engine, r *Report) {
 				}
 			}
 		}
+		checkRepinCoverage(e, r)
 		r.Check("R1:repin-visits-all-grants", "R1 re-pin after every change", "updateSharedAllocations iterates over every grant and never returns from inside the loop", e.Pos(usa.Pos()), usa, okAll, "", true)
 	}
 
@@ -530,6 +531,7 @@ func checkC01(e *Engine, r *Report) {
 			return ok && len(ret.Results) >= 4 && isConstEq(ret.Results[3], cpuReserved)
 		}})
 		r.Check("R2:reserved-eligibility", "R2 reserved-class eligibility", "without the reserved-CPU annotation and outside the reserved namespaces no container is classified reserved", e.Pos(fn.Pos()), fn, p == nil, e.pathString(p), true)
+		checkReservedOptOut(e, r, fn, "R2 reserved-class eligibility")
 		// every return's class is a constant (no computed class)
 		okConst := true
 		for _, ret := range Returns(fn) {
@@ -645,4 +647,30 @@ func checkSupplyPartition(e *Engine, r *Report, fn *ssa.Function, key string) {
 		}
 	}
 	r.Check(key+"#free-is-clone", "R11 frame lemmas", "a pool's free supply starts as a clone of its total supply", e.Pos(fn.Pos()), fn, okClone, "", true)
+}
+
+// checkReservedOptOut (shared by C01 and C03): an explicit reserved-CPU annotation that says "false" overrides
+// the reserved-namespace rule — a container that opts out is never classified reserved.
+func checkReservedOptOut(e *Engine, r *Report, fn *ssa.Function, rule string) {
+	cpuReserved, _ := e.TypesPkg(pkgTA).Scope().Lookup("cpuReserved").(*types.Const)
+	annot := e.Fn(pkgTA, "checkReservedCPUsAnnotations")
+	optedOut := func(cond ssa.Value) (bool, bool) {
+		v := cond
+		if ex, ok := v.(*ssa.Extract); ok {
+			if call, ok := ex.Tuple.(*ssa.Call); ok && e.IsCallTo(call, fset(annot)) {
+				switch ex.Index {
+				case 0:
+					return true, false // the annotation does not ask for reserved CPUs …
+				case 1:
+					return true, true // … and it is explicit
+				}
+			}
+		}
+		return false, false
+	}
+	p := FindPath(PathQuery{Fn: fn, Assume: optedOut, Target: func(in ssa.Instruction) bool {
+		ret, ok := in.(*ssa.Return)
+		return ok && len(ret.Results) >= 4 && isConstEq(ret.Results[3], cpuReserved)
+	}})
+	r.Check("R2:reserved-explicit-opt-out", rule, "a container whose reserved-CPU annotation explicitly says no is never classified reserved, whatever its namespace", e.Pos(fn.Pos()), fn, p == nil && annot != nil, e.pathString(p), true)
 }
